@@ -20,3 +20,12 @@ print('only in code:')
 for oe,fn in ca-cb: print('   ', sh(oe)[:int(sys.argv[4]) if len(sys.argv)>4 else 1500])
 print('only in ref:')
 for oe,fn in cb-ca: print('   ', sh(oe)[:int(sys.argv[4]) if len(sys.argv)>4 else 1500])
+# first point of difference between the (single) differing outcomes
+A = sorted(repr(oe) for oe, fn in ca - cb)
+B = sorted(repr(oe) for oe, fn in cb - ca)
+for x, y in list(zip(A, B))[:int(__import__('os').environ.get('NDIFF','1'))]:
+    i = next((i for i in range(min(len(x), len(y))) if x[i] != y[i]), None)
+    if i is not None:
+        print('first difference at', i)
+        print('  code:', x[max(0, i-200):i+300])
+        print('  ref :', y[max(0, i-200):i+300])
